@@ -154,7 +154,36 @@ pub fn gen_single_filter_program(r: &mut Rng) -> FilterProgram {
     FilterProgram { src, n_filters: 1, shapes: vec![shape] }
 }
 
+/// Files whose only top-level code is a `return`: filters before it, inside its expression, after it.
+pub fn gen_return_only_program(r: &mut Rng) -> FilterProgram {
+    let mut shapes = vec!["return-only-file"];
+    let mut n = 0;
+    let mut src = String::new();
+    if r.chance(1, 2) {
+        src.push_str(&filter_comment(r, &mut shapes, true));
+        n += 1;
+    }
+    src.push_str("return {\n");
+    for _ in 0..r.range(1, 3) {
+        if r.chance(2, 3) {
+            src.push_str("  ");
+            src.push_str(&filter_comment(r, &mut shapes, true));
+            n += 1;
+        }
+        src.push_str(*r.pick(&["  value = undefined_thing,\n", "  f = function()\n    local v0 = 1\n    local v0 = undefined_a\n  end,\n", "  1,\n"]));
+    }
+    src.push_str("}\n");
+    if r.chance(1, 3) {
+        src.push_str(&filter_comment(r, &mut shapes, true));
+        n += 1;
+    }
+    FilterProgram { src, n_filters: n, shapes }
+}
+
 pub fn gen_filter_program(r: &mut Rng) -> FilterProgram {
+    if r.chance(1, 12) {
+        return gen_return_only_program(r);
+    }
     if r.chance(1, 3) {
         return gen_single_filter_program(r);
     }
